@@ -99,9 +99,11 @@ Fixpoint wfb (k : pykey) : bool :=
   | KT l => negb (is_nil l) && forallb wfb l
   end.
 
-(* ---- unravel_keys( *keys)  (added in the deepening round) ----
+(* ---- unravel_keys( *keys)  (added in the deepening round; follows repair D1804) ----
    native: csrc/pybind.cpp binds "unravel_keys" to unravel_key with ONE argument ("for bc compat"): any other arity is a
-   TypeError and the result is the bare unravelled key.  Python (compile) branch: tuple(unravel_key(key) for key in keys). *)
+   TypeError and the result is the bare unravelled key.
+   Python (compile) branch after repair D1804: `if len(keys) != 1: raise TypeError`, then unravel_key(keys[0]).
+   Before the repair ([repaired := false]): tuple(unravel_key(key) for key in keys). *)
 Inductive keysres := KOne (r : keyres) | KMany (l : list keyres) | KRaise.
 
 Definition cpp_unravel_keys (ks : list pykey) : keysres :=
@@ -110,5 +112,12 @@ Definition cpp_unravel_keys (ks : list pykey) : keysres :=
   | _ => KRaise
   end.
 
-Definition py_unravel_keys (ks : list pykey) : keysres :=
-  match py_unravel_key_list ks with Some l => KMany l | None => KRaise end.
+Definition py_unravel_keys_gen (repaired : bool) (ks : list pykey) : keysres :=
+  if repaired then
+    match ks with
+    | [k] => match py_unravel_key k with RRaise => KRaise | r => KOne r end
+    | _ => KRaise
+    end
+  else match py_unravel_key_list ks with Some l => KMany l | None => KRaise end.
+Definition py_unravel_keys := py_unravel_keys_gen true.
+Definition py_unravel_keys_unrepaired := py_unravel_keys_gen false.
